@@ -11,7 +11,8 @@ from vf.props import tplfam
 LEVEL = "model_checking"
 RULE = (
     "python: every concatenation of <= n pieces from {SELECT, {a}, {a.b}, {c.d.e}, {{, }}, {{x}}, '{{1.5}}', {a!r}, {a:>4}, {a.b:>4}, FROM t, newline} x 3 "
-    "contexts (one with the dotted keys missing); reference model = string.Formatter().parse + dotted lookup in the sqlfluff mapping. "
+    "contexts (one with the dotted keys missing); field names over 8 name atoms (non-ASCII letters, hyphen, space, leading underscore / digit) plain and "
+    "dotted (72 names) x 5 forms x {all keys defined, none}; reference model = string.Formatter().parse + dotted lookup in the sqlfluff mapping. "
     "placeholder: every concatenation of <= n pieces (SQL fragments, the style's parameter spellings, look-alikes ::p \\:p a:p) x 12 styles x "
     "values configured / not; reference model = one regex.sub over a frozen copy of the documented style table. Every model case is "
     "replayed against the implementation (traces_validated = evaluations). Non-trivial = the model renders something different from the "
@@ -31,6 +32,9 @@ def cases(tier):
     ps = tplfam.py_strings(tier)
     for i in range(0, len(ps), 128):
         out.append({"k": "python", "ss": ps[i : i + 128]})
+    fs = field_strings()
+    for i in range(0, len(fs), 64):
+        out.append({"k": "pyfields", "ss": fs[i : i + 64]})
     for st in tplfam.ph_styles():
         if st not in ph_model.STYLES:
             continue
@@ -40,8 +44,23 @@ def cases(tier):
     return out
 
 
-def py_ctx(ci):
-    c = dict(tplfam.PY_CTXS[ci])
+# field names over an alphabet of name atoms (non-ASCII letters, a hyphen, a space, a leading digit/underscore),
+# plain and dotted, with and without format spec / conversion; context 0 defines every key, context 1 none
+FIELD_ATOMS = ["a", "\u00e9", "\u8868", "a-b", "a b", "_1", "\u044f", "A1"]
+FIELD_NAMES = FIELD_ATOMS + [x + "." + y for x in FIELD_ATOMS for y in FIELD_ATOMS]
+FIELD_CTXS = [{n: "v%d" % i for i, n in enumerate(FIELD_NAMES)}, {"zz": "1"}]
+
+
+def field_strings():
+    out = []
+    for n in FIELD_NAMES:
+        for form in ("{%s}", "SELECT {%s} FROM t\n", "{%s:>4}", "{%s!r}", "{{x}}{%s}"):
+            out.append(form % n)
+    return out
+
+
+def py_ctx(ci, ctxs=None):
+    c = dict((ctxs or tplfam.PY_CTXS)[ci])
     dotted = {k: v for k, v in c.items() if "." in k}
     plain = {k: v for k, v in c.items() if "." not in k}
     if dotted:
@@ -49,8 +68,8 @@ def py_ctx(ci):
     return plain
 
 
-def py_linter(ci):
-    return sq.linter("ansi", "python", configs={"templater": {"python": {"context": py_ctx(ci)}}})
+def py_linter(ci, ctxs=None):
+    return sq.linter("ansi", "python", configs={"templater": {"python": {"context": py_ctx(ci, ctxs)}}})
 
 
 def has_dotted(s):
@@ -64,21 +83,22 @@ def has_dotted(s):
 
 def run_case(case):
     res = {"n": 0, "fails": [], "cls": set(), "stats": {}, "nontrivial": 0}
-    if case["k"] == "python":
+    if case["k"] in ("python", "pyfields"):
+        ctxs = FIELD_CTXS if case["k"] == "pyfields" else tplfam.PY_CTXS
         for s in case["ss"]:
-            for ci in range(len(tplfam.PY_CTXS)):
+            for ci in range(len(ctxs)):
                 if "ctx" in case and case["ctx"] != ci:
                     continue
                 res["n"] += 1
-                one = {"k": "python", "ss": [s], "ctx": ci}
-                ctx = py_ctx(ci)
+                one = {"k": case["k"], "ss": [s], "ctx": ci}
+                ctx = py_ctx(ci, ctxs)
                 try:
                     exp = ("ok", py_model.render(s, ctx))
                 except py_model.Missing as e:
                     exp = ("missing", str(e))
                 except ValueError as e:
                     exp = ("invalid", str(e))
-                lnt = py_linter(ci)
+                lnt = py_linter(ci, ctxs)
                 try:
                     r = sq.render(lnt, s)
                     got = ("ok", r.templated_variants[0].templated_str) if r.templated_variants else ("tmp", [v.desc()[:80] for v in r.templater_violations])
@@ -86,7 +106,7 @@ def run_case(case):
                 except Exception as e:
                     got = ("crash", type(e).__name__)
                     tmp = False
-                feats = {"model": exp[0], "impl": got[0], "has_dotted_field": has_dotted(s), "dot_inside_braces": bool(__import__("re").search(r"{[^}]*\.[^}]*}", s))}
+                feats = {"model": exp[0], "impl": got[0], "has_dotted_field": has_dotted(s), "escaped_braces_and_dot": ("{{" in s or "}}" in s) and "." in s, "dotted_spec_then_brace": bool(__import__("re").search(r"\{[^:}]*\.[^:}]*:\S*\}\S*\}", s))}
                 if exp[0] == "ok":
                     if got[0] != "ok" or got[1] != exp[1] or tmp:
                         res["fails"].append({"clause": "py_render", "features": feats, "detail": {"want": exp[1][:120], "got": str(got[1])[:160]}, "case": one})
